@@ -383,3 +383,9 @@ func VerifParseDuration(s string) (time.Duration, error) { return times.ParseDur
 func VerifDotPrefix(leaf string, prefix ...string) string { return istrings.DotPrefix(leaf, prefix...) }
 
 func VerifCheckedFuncName(name string) string { return checkedfuncname(name) }
+
+// VerifRestoreModes sets the process-wide debug / trace switches of hedzr/is.
+func VerifRestoreModes(debug, trace bool) {
+	is.SetDebugMode(debug)
+	is.SetTraceMode(trace)
+}
